@@ -517,6 +517,31 @@ string_repr_harness!(c01_string_repr_after_nel, "\u{85}", 2, "\\x85");
 string_repr_harness!(c01_string_repr_after_c1_control, "\u{9f}", 2, "\\x9f");
 // @verif-end
 
+// @verif props=C12 tier=quick cap=900 group=core fns=Value::get_path
+/// An attribute path (the `attribute=` argument of map / selectattr / sort / groupby ...) applied to an UNDEFINED
+/// value is an undefined-attribute error for EVERY one-letter path; on a defined value without that attribute
+/// it is Ok(undefined) - the lookup the VM performs for `v.x`.
+#[kani::proof]
+#[kani::unwind(4)]
+#[kani::stub(alloc::fmt::format, crate::verif_common::format_stub)]
+fn c12_get_path_on_undefined_is_an_error() {
+    let c: u8 = kani::any();
+    kani::assume(c >= b'a' && c <= b'z');
+    let buf = [c];
+    let path = core::str::from_utf8(&buf).unwrap();
+    let r = Value::UNDEFINED.get_path(path);
+    assert!(r.is_err());
+    core::mem::forget(r);
+    let r2 = Value::from(7i64).get_path(path);
+    match &r2 {
+        Ok(v) => assert!(v.is_undefined()),
+        Err(_) => assert!(false),
+    }
+    core::mem::forget(r2);
+    kani::cover!(c == b'q');
+    kani::cover!(c == b'a');
+}
+
 #[cfg(test)]
 mod playback {
     use super::*;
